@@ -81,6 +81,8 @@ func c16Exec(c c16Case) (keys []string, detail, class string) {
 		_, _, _, page1, doc1 := c16BuildAndJudge(sp, c)
 		c2 := c
 		c2.Relay, c2.Frags = (c.Relay+7)%len(c16Relay), nil
+		// ... and after the endpoints were changed on that instance (an IdP metadata refresh)
+		c2.Endpoint = (c.Endpoint + 1) % len(c16Endpoints)
 		k2, d2, _ := c16ExecOn(sp, c2)
 		for _, k := range k2 {
 			keys = append(keys, strings.Replace(k, "C16/", "C16/second-call-on-same-instance/", 1))
